@@ -6,7 +6,7 @@ NAME=$1; BUDGET=$2; shift 2
 P=/verif/seeded/$NAME/patch.diff
 git -C /repo diff --quiet || { echo "/repo is dirty"; exit 2; }
 git -C /repo apply $P || exit 2
-trap 'git -C /repo checkout -- . ; /verif/bin/build >/dev/null 2>&1' EXIT
+trap 'git -C /repo checkout -- . ; [ -n "${NOREBUILD:-}" ] || /verif/bin/build >/dev/null 2>&1' EXIT
 for prop in "$@"; do
   echo "== $NAME vs $prop"
   /verif/bin/check $prop -budget $BUDGET -evidence /tmp/ev-mut -replays /tmp/rp-mut 2>&1 | grep -E "^VIOLATION|^  clause|^campaign|^build|^KNOWN" | cut -c1-300 | head -8
